@@ -108,29 +108,35 @@ fn observer<I: mahf::identifier::Identifier>(c: PsoCase, iters: u32, data: Arc<M
                                 if xa[k][i].to_bits() != moved.to_bits() {
                                     viol("C18 position not-moved-by-new-velocity".into(), format!("{}: particle {} coordinate {}: position {:?} -> {:?}, new velocity {:?} (x_before + v_after = {:?})", ctx, k, i, p.x[k][i], xa[k][i], v_new, moved));
                                 }
-                                let decodable = words.len() == xa.len() * c.dim * 2;
-                                let (r1, r2) = match (next(), next()) {
-                                    (Some(a), Some(b)) if decodable => (a, b),
-                                    _ => (f64::NAN, f64::NAN),
-                                };
                                 if p.xp.len() == xa.len() && p.xg.len() == va[k].len() && p.v.len() == xa.len() {
-                                    let f = |w: f64, ra: f64, rb: f64| (w * p.v[k][i] + c.c1 * ra * (p.xp[k][i] - p.x[k][i]) + c.c2 * rb * (p.xg[i] - p.x[k][i])).clamp(-c.v_max, c.v_max);
-                                    let close = |e: f64| (v_new - e).abs() <= 1e-12 * e.abs().max(1.0);
-                                    // the random factors are decoded from the logged words (either assignment); without
-                                    // random terms (c1 = c2 = 0) the update is w * v exactly
+                                    // How the random factors are drawn (order, number of words, float conversion) is not fixed by
+                                    // anything: with r1, r2 anywhere in [0, 1] the new velocity is clamp(w v + c1 r1 (pbest - x) +
+                                    // c2 r2 (gbest - x)); it must be explained by the *stored* weight for some such r1, r2. Without
+                                    // random terms (c1 = c2 = 0) this is exactly clamp(w v).
+                                    let (ta, tb) = (c.c1 * (p.xp[k][i] - p.x[k][i]), c.c2 * (p.xg[i] - p.x[k][i]));
+                                    let (lo, hi) = (ta.min(0.0) + tb.min(0.0), ta.max(0.0) + tb.max(0.0));
+                                    let explained = |w: f64| -> bool {
+                                        let base = w * p.v[k][i];
+                                        let tol = 1e-9 * (base.abs() + ta.abs() + tb.abs() + v_new.abs()).max(1.0);
+                                        if v_new >= c.v_max {
+                                            base + hi >= c.v_max - tol
+                                        } else if v_new <= -c.v_max {
+                                            base + lo <= -c.v_max + tol
+                                        } else {
+                                            v_new - base >= lo - tol && v_new - base <= hi + tol
+                                        }
+                                    };
                                     let no_random = c.c1 == 0.0 && c.c2 == 0.0;
-                                    let (z1, z2) = if no_random { (0.0, 0.0) } else { (r1, r2) };
-                                    let with_stored = close(f(p.w, z1, z2)) || close(f(p.w, z2, z1));
-                                    let with_configured = close(f(c.start_w, z1, z2)) || close(f(c.start_w, z2, z1));
-                                    if (no_random || decodable) && !with_stored && with_configured && (p.w - c.start_w).abs() > 1e-9 {
-                                        viol(
-                                            "C18 velocity uses-configured-instead-of-stored-weight".to_string(),
-                                            format!("{}: particle {} coordinate {}: new velocity {:?} matches the configured start weight {} but not the stored inertia weight {} (old v = {}, x = {}, pbest = {}, gbest = {})", ctx, k, i, v_new, c.start_w, p.w, p.v[k][i], p.x[k][i], p.xp[k][i], p.xg[i]),
-                                        );
-                                    } else if no_random && !with_stored {
+                                    let exact = (p.w * p.v[k][i]).clamp(-c.v_max, c.v_max);
+                                    if no_random && (v_new - exact).abs() > 1e-12 * exact.abs().max(1.0) {
                                         viol(
                                             "C18 velocity old-velocity-not-scaled-by-stored-weight".to_string(),
-                                            format!("{}: particle {} coordinate {}: with c1 = c2 = 0 the new velocity must be clamp(w * v) = {:?} for the stored weight {}, old v = {}; it is {:?}", ctx, k, i, f(p.w, 0.0, 0.0), p.w, p.v[k][i], v_new),
+                                            format!("{}: particle {} coordinate {}: with c1 = c2 = 0 the new velocity must be clamp(w * v) = {:?} for the stored weight {}, old v = {}; it is {:?}", ctx, k, i, exact, p.w, p.v[k][i], v_new),
+                                        );
+                                    } else if !no_random && !explained(p.w) {
+                                        viol(
+                                            "C18 velocity not-explained-by-stored-weight".to_string(),
+                                            format!("{}: particle {} coordinate {}: new velocity {:?} cannot be clamp(w v + c1 r1 (pbest - x) + c2 r2 (gbest - x)) for the stored inertia weight {} and any r1, r2 in [0, 1]{} (old v = {}, x = {}, pbest = {}, gbest = {})", ctx, k, i, v_new, p.w, if explained(c.start_w) { format!("; it can for the configured start weight {}", c.start_w) } else { String::new() }, p.v[k][i], p.x[k][i], p.xp[k][i], p.xg[i]),
                                         );
                                     }
                                 }
